@@ -9,6 +9,11 @@ Shape (A), two explorations executed on the real ``SourceCatalog`` /
    ones in quick, all in thorough), everything}, i in every index form, p every
    public property, for several catalog variants; invariant: ``cat[i].p`` equals
    ``take(fresh.p, i)`` (value of a fresh catalog on which only p was read).
+   "Property" includes the per-source results of the public methods with an
+   argument (``fluxfrac_radius(f)``, ``circular_photometry(r)`` ...) and the extra
+   properties they create.  The variants contain sources for every exceptional
+   branch of the per-source loops (variant ``hard6``) and the index forms isolate
+   every position, so a result that leaks from one source to the next is seen.
 2. *extra-property independence*: breadth-first search over histories of
    add / overwrite / rename / remove extra property, photometry-with-name,
    index, copy, to_table on parent and child with ``__dict__``-digest
